@@ -820,7 +820,114 @@ def _cached_ast_ownership(ctx, model, m):
            "strips the extra arguments from inherited methods")
 
 
-def _temporaries_hygienic(ctx, model, m, inliner_fn):
+def _generated_inlinings(model, m, rin, fn):
+    """_RecInliner.visit_Call interpreted (pv/absint.py) on the call site
+    self.rec(expr, *args, **kwargs) under the four flag settings, with the
+    constructors of the ast module building real nodes: the code the
+    optimizer generates, whatever helpers produce it.
+    -> {(inline_rec, inline_cache): expression}"""
+    import copy
+    from ..absint import (Interp, Obj, Opaque, Raised, StepBound, module_env,
+                          default_isinstance)
+
+    def resolve(cls, nm):
+        if cls == "_RecInliner":
+            mem = model.lookup(rin, nm)
+            if mem is not None and mem.kind == "func":
+                return ("func", mem.node)
+        return None
+
+    def ast_cls(v):
+        for c in (v if isinstance(v, tuple) else (v,)):
+            w = getattr(c, "what", "").replace(".", " ").split(" ")
+            k = getattr(ast, w[-1], None) if w and w[-1] else None
+            if not (isinstance(k, type) and issubclass(k, ast.AST)):
+                return None
+            yield k
+
+    def _isinst(it, n, a, k):
+        ks = list(ast_cls(a[1]) or ())
+        if ks and None not in ks:
+            return isinstance(a[0], tuple(ks))
+        r = default_isinstance(a[0], a[1])
+        if r is None:
+            raise AnalysisError(f"isinstance(..., {a[1]!r})")
+        return r
+
+    def _repl(it, n, a, k):
+        if not isinstance(a[0], ast.AST):
+            raise AnalysisError("_replace of a non-node")
+        o = copy.copy(a[0])
+        for kk, v in k.items():
+            setattr(o, kk, v)
+        return o
+
+    def _attrs(it, n, base, at):
+        if isinstance(base, ast.AST):
+            if not hasattr(base, at):
+                raise Raised(n, "AttributeError")
+            return getattr(base, at)
+        return Opaque(ast.unparse(n))
+    calls = {"isinstance": _isinst, "_replace": _repl,
+             "self.generic_visit": lambda it_, n_, a, k: a[0],
+             "super().generic_visit": lambda it_, n_, a, k: a[0]}
+    for nm in dir(ast):
+        k_ = getattr(ast, nm)
+        if isinstance(k_, type) and issubclass(k_, ast.AST):
+            mk = (lambda K: lambda it_, n_, a, k: K(*a, **k))(k_)
+            calls[nm] = mk
+            calls["ast." + nm] = mk
+    out = {}
+    glob = module_env(m.tree, {"ast": Opaque("ast")})
+    for ir, ic in itertools.product([True, False], repeat=2):
+        me = Obj("_RecInliner", {"inline_rec": ir, "inline_cache": ic})
+        site = ast.parse("self.rec(expr, *args, **kwargs)", mode="eval").body
+        it = Interp(calls=calls, attrs=_attrs, resolve=resolve, max_steps=40000,
+                    globals_=glob)
+        try:
+            r = it.call_function(fn, [me, site], dict(glob))
+        except (Raised, StepBound) as e:
+            raise AnalysisError(f"_RecInliner.visit_Call(inline_rec={ir}, "
+                                f"inline_cache={ic}) on self.rec(...): {e!r}")
+        if not isinstance(r, ast.expr):
+            raise AnalysisError("_RecInliner.visit_Call returns no expression")
+        try:
+            r = ast.parse(ast.unparse(ast.fix_missing_locations(
+                copy.deepcopy(r))), mode="eval").body
+        except Exception as e:      # noqa: BLE001
+            raise AnalysisError(f"generated code does not unparse: {e}")
+        out[ir, ic] = r
+    return out
+
+
+def _judge_generated(ctx, model, m, gen, where):
+    """the generated expressions decided as dispatch routines (pv/dispatch.py):
+    each stands for  self.rec(expr, *args, **kwargs)"""
+    from .. import dispatch
+    base = ast.unparse(gen[False, False]).replace(" ", "")
+    ctx.ob("P0/optimizer/no-flags-no-rewrite",
+           base == "self.rec(expr,*args,**kwargs)", where,
+           "without inline_rec / inline_cache a rec site is left as it is")
+    for (ir, ic), e in sorted(gen.items(), key=lambda kv: [not x for x in kv[0]]):
+        if not (ir or ic):
+            continue
+        src = ast.unparse(e)
+        fn = ast.parse("def rec(self, expr, *args, **kwargs):\n    return "
+                       + src).body[0]
+        wit, n = dispatch.judge(fn, cached=ic, module_tree=m.tree,
+                                foreign=not ic, rec_is_plain=not ir)
+        ctx.ob(f"P0/optimizer/generated-code/inline_rec={ir},inline_cache={ic}",
+               not wit, where,
+               f"the expression generated for a rec site dispatches like "
+               f"{'CachedMapper' if ic else 'Mapper'}.__call__ on {n} node-class/"
+               "handler-set cases" + (", and serves the second request from "
+               "the table" if ic else "") if not wit else
+               f"the code generated for self.rec(...) under inline_rec={ir}, "
+               f"inline_cache={ic} does not behave like the call it replaces: "
+               + "; ".join(wit[:3]), {"generated": src[:400]})
+
+
+def _temporaries_hygienic(ctx, model, m, inliner_fn, gen=None):
     """The inlined code assigns temporaries (by :=) in the scope of the method
     it is inlined into.  Their names must not be names that mapper methods of
     this package bind themselves -- those methods are exactly what gets
@@ -844,7 +951,12 @@ def _temporaries_hygienic(ctx, model, m, inliner_fn):
             return None if a is None or b is None else a + b
         return None
     temps = {}
-    for c in ast.walk(inliner_fn):
+    if gen is not None:
+        for e in gen.values():
+            for c in ast.walk(e):
+                if isinstance(c, ast.NamedExpr) and isinstance(c.target, ast.Name):
+                    temps[c.target.id] = c
+    for c in ast.walk(inliner_fn) if gen is None else ():
         if isinstance(c, ast.Call) and isinstance(c.func, ast.Name) and \
                 c.func.id == "expr_assign" and c.args:
             t = text(c.args[0])
@@ -883,6 +995,100 @@ def _temporaries_hygienic(ctx, model, m, inliner_fn):
            "rec call returns the cache sentinel)")
 
 
+def _judge_varargs_remover(model, var, fn):
+    """interpretive judge: visit_Call interpreted on abstract ast.Call nodes.
+    -> witnesses"""
+    from ..absint import Interp, Obj, Opaque, Raised, StepBound, default_isinstance
+
+    def name(i):
+        return Obj("Name", {"id": i})
+    arg_pool = [
+        ("*VA", Obj("Starred", {"value": name("VA")}), True),
+        ("*other", Obj("Starred", {"value": name("other")}), False),
+        ("*[..]", Obj("Starred", {"value": Obj("List", {"elts": []})}), False),
+        ("VA", name("VA"), False),
+        ("*KW", Obj("Starred", {"value": name("KW")}), False),
+    ]
+    kw_pool = [
+        ("**KW", Obj("keyword", {"arg": None, "value": name("KW")}), True),
+        ("**other", Obj("keyword", {"arg": None, "value": name("other")}), False),
+        ("**{..}", Obj("keyword", {"arg": None, "value": Obj("Dict", {})}), False),
+        ("x=KW", Obj("keyword", {"arg": "x", "value": name("KW")}), False),
+        ("**VA", Obj("keyword", {"arg": None, "value": name("VA")}), False),
+    ]
+
+    def resolve(cls, nm):
+        if cls == "_VarArgsRemover":
+            mem = model.lookup(var, nm)
+            if mem is not None and mem.kind == "func":
+                return ("func", mem.node)
+        return None
+
+    def _isinst(it, n, a, k):
+        cs = a[1] if isinstance(a[1], tuple) else (a[1],)
+        if all(getattr(c, "what", "").startswith("ast.") for c in cs):
+            return isinstance(a[0], Obj) and any(
+                c.what == "ast." + str(a[0].cls) for c in cs)
+        r = default_isinstance(a[0], a[1])
+        if r is None:
+            raise AnalysisError(f"isinstance(..., {a[1]!r})")
+        return r
+
+    def _repl(it, n, a, k):
+        o = a[0]
+        if not isinstance(o, Obj):
+            raise AnalysisError("_replace of a non-node")
+        f = dict(o.fields)
+        f.update(k)
+        return Obj(o.cls, f)
+
+    def _attrs(it, n, base, at):
+        if isinstance(base, Obj) and at in base.fields:
+            return base.fields[at]
+        return Opaque(ast.unparse(n))
+    wit = []
+    n_cases = 0
+    orders = [(0, 1, 2, 3, 4), (3, 0, 1, 0, 4), (1, 2), (0,), ()]
+    for da, dk in itertools.product([True, False], repeat=2):
+        for oa, ok_ in itertools.product(orders, repeat=2):
+            me = Obj("_VarArgsRemover", {
+                "drop_args": da, "drop_kwargs": dk,
+                "vararg_name": "VA", "kwarg_name": "KW"})
+            args = [arg_pool[i] for i in oa]
+            kws = [kw_pool[i] for i in ok_]
+            node = Obj("Call", {"func": name("f"),
+                                "args": [x[1] for x in args],
+                                "keywords": [x[1] for x in kws]})
+            it = Interp(calls={"isinstance": _isinst, "_replace": _repl,
+                               "self.generic_visit": lambda it_, n_, a, k: a[0]},
+                        attrs=_attrs, resolve=resolve, max_steps=20000,
+                        globals_={"ast": Opaque("ast")})
+            n_cases += 1
+            label = (f"drop_args={da}, drop_kwargs={dk}, call f("
+                     + ", ".join(x[0] for x in args + kws) + ")")
+            try:
+                out = it.call_function(fn, [me, node], {"ast": Opaque("ast")})
+            except (Raised, StepBound) as e:
+                wit.append(f"{label}: {type(e).__name__}")
+                continue
+            if not isinstance(out, Obj) or out.cls != "Call":
+                raise AnalysisError("visit_Call returns no call node")
+            want_a = [x[1] for x in args if not (da and x[2])]
+            want_k = [x[1] for x in kws if not (dk and x[2])]
+            got_a, got_k = out.fields.get("args"), out.fields.get("keywords")
+            same = (lambda g, w: isinstance(g, (list, tuple)) and len(g) == len(w)
+                    and all(a is b for a, b in zip(g, w)))
+            if not same(got_a, want_a):
+                wit.append(f"{label}: positional arguments left are not those "
+                           "other than the dropped *args")
+            if not same(got_k, want_k):
+                wit.append(f"{label}: keywords left are not those other than "
+                           "the dropped **kwargs")
+    if n_cases < 50:
+        raise AnalysisError("_VarArgsRemover: too few cases")
+    return wit
+
+
 def _optimizer(ctx, model):
     m = model.repo.module(OPT)
     _cached_ast_ownership(ctx, model, m)
@@ -892,7 +1098,22 @@ def _optimizer(ctx, model):
     if vc is None:
         raise AnalysisError("_VarArgsRemover.visit_Call not found")
     comps = [n for n in ast.walk(vc.node) if isinstance(n, ast.ListComp)]
-    if len(comps) != 2:
+    try:
+        wit = _judge_varargs_remover(model, var, vc.node)
+    except AnalysisError as e:
+        wit = None
+        ctx.extra["judge_unavailable:_VarArgsRemover.visit_Call"] = str(e)
+    if wit is not None:
+        ctx.ob("P0/optimizer/_VarArgsRemover/call-sites", not wit, m.loc(vc.node),
+               "visit_Call interpreted on call sites mixing the dropped "
+               "parameter's splat with other splats, same-named plain arguments "
+               "and named keywords, under the four flag settings: exactly the "
+               "dropped splats go, the rest stays in order" if not wit else
+               "_VarArgsRemover.visit_Call: " + "; ".join(wit[:3]))
+    vr_judged = wit is not None and not wit
+    if wit is not None and len(comps) != 2:
+        comps = []          # the interpretation decides
+    elif len(comps) != 2:
         raise AnalysisError("_VarArgsRemover: expected two filters")
     for comp in comps:
         gen = comp.generators[0]
@@ -1061,7 +1282,7 @@ def _optimizer(ctx, model):
                "call, whatever is splatted: a handler that rebuilds its node "
                "with mk(*[self.rec(c) for c in expr.children]) loses all "
                "operands in the optimized mapper (Sum(()) instead of x + y + 3)")
-    if n_filters < 2:
+    if n_filters < 2 and not vr_judged:
         raise AnalysisError("_VarArgsRemover.visit_Call: the filters over "
                             "node.args / node.keywords were not recognised")
 
@@ -1101,16 +1322,45 @@ def _optimizer(ctx, model):
     # (c)/(d) hazards and guards
     rin = model.cls(f"{OPT}:_RecInliner")
     rv = rin.members.get("visit_Call")
+    try:
+        gen = _generated_inlinings(model, m, rin, rv.node)
+    except AnalysisError as e:
+        gen = None
+        ctx.extra["judge_unavailable:_RecInliner.visit_Call"] = str(e)
+    if gen is not None:
+        try:
+            _judge_generated(ctx, model, m, gen, m.loc(rv.node))
+        except AnalysisError as e:
+            gen = None
+            ctx.extra["judge_unavailable:_RecInliner.visit_Call"] = str(e)
     key_tuple = None
     for n in ast.walk(rv.node):
         if isinstance(n, ast.Assign) and ast.unparse(n.targets[0]) == \
                 "cache_key_expr":
             key_tuple = n.value
-    if key_tuple is None:
+    if gen is not None:
+        # the key of the generated look-aside: what .get() is handed
+        keys = []
+        for c in ast.walk(gen[False, True]):
+            if isinstance(c, ast.Call) and isinstance(c.func, ast.Attribute) \
+                    and c.func.attr == "get" and c.args:
+                k_ = c.args[0]
+                keys.append(k_.value if isinstance(k_, ast.NamedExpr) else k_)
+        if len(keys) != 1:
+            raise AnalysisError("generated look-aside: the table look-up was "
+                                "not found")
+        key_tuple = key_tuple or rv.node
+        names_ = {x.id for x in ast.walk(keys[0]) if isinstance(x, ast.Name)}
+        key_has_rest = {"args", "kwargs"} <= names_
+        ksrc = ast.unparse(keys[0]).replace(" ", "")
+        key_has_type = "type(expr)" in ksrc and \
+            "expr" in ksrc.replace("type(expr)", "")
+    else:
+      if key_tuple is None:
         raise AnalysisError("_RecInliner: cache_key_expr not found")
-    ksrc = ast.unparse(key_tuple)
-    key_has_rest = "node.args[1:]" in ksrc and "node.keywords" in ksrc
-    key_has_type = "expr_type" in ksrc and "expr" in ksrc.replace("expr_type", "")
+      ksrc = ast.unparse(key_tuple)
+      key_has_rest = "node.args[1:]" in ksrc and "node.keywords" in ksrc
+      key_has_type = "expr_type" in ksrc and "expr" in ksrc.replace("expr_type", "")
     ctx.ob("T/optimizer/inlined-key/type-and-expr", key_has_type, m.loc(key_tuple),
            "inlined key contains type(expr) and expr" if key_has_type else
            "the inlined cache key lacks type(expr) or expr")
@@ -1164,14 +1414,24 @@ def _optimizer(ctx, model):
         idv = next((k.value for k in st.keywords if k.arg == "id"), None) \
             if isinstance(st, ast.Call) else None
         ok = idv is not None and ast.dump(idv) == ast.dump(key_names[0])
-    _temporaries_hygienic(ctx, model, m, rv.node)
-    ctx.ob("P/optimizer/inlined-lookaside/same-key", ok, m.loc(rv.node),
-           "inlined lookup and store use one cache_key" if ok else
-           "the inlined look-aside does not store under the key it looked up")
-    _, sar = model.func(f"{OPT}:_set_and_return")
+    _temporaries_hygienic(ctx, model, m, rv.node, gen)
+    judged_ok = gen is not None and not any(
+        o.key.startswith("P0/optimizer/generated-code/") and not o.ok
+        for o in ctx.obs)
+    if ok or not judged_ok:
+        ctx.ob("P/optimizer/inlined-lookaside/same-key", ok, m.loc(rv.node),
+               "inlined lookup and store use one cache_key" if ok else
+               "the inlined look-aside does not store under the key it looked up")
+    try:
+        _, sar = model.func(f"{OPT}:_set_and_return")
+    except Exception:                       # noqa: BLE001
+        if not judged_ok:
+            raise
+        return
     body = [ast.unparse(s).replace(" ", "") for s in sar.body]
     ok = body == ["mapping[key]=value", "returnvalue"]
-    ctx.ob("P/optimizer/_set_and_return", ok, m.loc(sar),
+    if ok or not judged_ok:
+      ctx.ob("P/optimizer/_set_and_return", ok, m.loc(sar),
            "_set_and_return stores then returns the value" if ok else
            "_set_and_return does not store the value under the key and return it")
 
